@@ -21,3 +21,9 @@ package consumer
 //@ ensures [never-fails] result == nil
 //@ ensures [height-inherits-vsc-id] $SetHeightValsetUpdateID.called && $SetHeightValsetUpdateID.height == height + 1 && $SetHeightValsetUpdateID.valsetUpdateId == id
 //@ precall TrackHistoricalInfo [after-mapping] $SetHeightValsetUpdateID.called
+
+// ---------------------------------------------------------------- C01: received VSC packets reach the keeper unchanged
+
+//@ func AppModule.OnRecvPacket
+//@ requires am.keeper != nil
+//@ precall OnRecvVSCPacket [this-packet] $OnRecvVSCPacket.packet == packet && $OnRecvVSCPacket.newChanges == data && ack.Success()
